@@ -177,4 +177,16 @@ example : Facts.gen_pollPeriod 5000000000 (fun n => n - 1) = 5499999999 := by de
 /-- non-vacuity of `cadence` and `poll_ok_fresh`'s hypotheses -/
 example : (7 : Nat) < 2 * 50 / 10 := by decide
 
+/-! ### T1: the functions the model transcribes, statement by statement (white space collapsed) -/
+
+def expected_Store_poll : List String := ["var errs []error", "for name, sv := range s.snapshotActive() { if sv.expired { updates[name] = nil continue } got, err := s.client.GetIfChanged(ctx, name, sv.version) if errors.Is(err, api.ErrValueNotChanged) { continue } else if err != nil { errs = append(errs, err) continue } if got.Version != sv.version { updates[name] = got } }", "return errors.Join(errs...)"]
+
+/-- the poll's round of requests: one conditional get per known secret (an expired one is marked for removal instead), `not changed` skipped, any other error collected, a value installed only if its version differs from the one asked about -/
+theorem fact_Store_poll_as_transcribed : Facts.body_Store_poll = expected_Store_poll := by rfl
+
+def expected_Store_applyUpdates : List String := ["if len(updates) == 0 { return nil }", "s.active.Lock()", "defer s.active.Unlock()", "for name, sv := range updates { if sv == nil { if _, ok := s.active.f[name]; ok { continue } delete(s.active.m, name) s.logf(\"[store] removing expired undeclared secret %q\", name) continue } s.active.m[name].Secret = sv s.logf(\"[store] update to version %d for secret %q\", sv.Version, name) for _, w := range s.active.w[name] { w.notify() } }", "return s.flushCacheLocked()"]
+
+/-- installing a round's results: nothing to do for an empty round; under the store's lock: an expired secret is dropped unless a handle pins it, a value replaces the old one and every watcher of the name is notified; one cache flush at the end -/
+theorem fact_Store_applyUpdates_as_transcribed : Facts.body_Store_applyUpdates = expected_Store_applyUpdates := by rfl
+
 end Setec.C11
